@@ -48,13 +48,22 @@ func init() {
 			Rename: map[string]string{"IssuerFromContext()": "reqIssuer", "NewAccessTokenVerifier()": "Hand.resNewAccessTokenVerifier"}}),
 		// decrypt (opaque) / verify (JWT) / neither
 		reader("pkg/op/userinfo.go", "getTokenIDAndSubject", "(String × String × Bool)"),
+		// the verifier the revocation reader checks a JWT with: the provider's verifier for the request, its key set wrapped by the
+		// recorder (the recorder verifies exactly as the key set it wraps: `Coe ResRevocationKeys KeySet`)
+		func() FuncSpec {
+			f := style(FuncSpec{File: "pkg/op/token_revocation.go", Name: "revocationKeySet.verifier", Lean: "revocationKeySetVerifier",
+				Params: []string{"(k : ResRevocationKeys)", "(v : Verifier)"}, Ret: RetVal, RetType: "Verifier",
+				Rename: map[string]string{"*v": "v", "&verifier": "verifier", "NewAccessTokenVerifier()": "Hand.resNewAccessTokenVerifier"}})
+			f.PlainUpdate = false // field updates keep the type of the updated variable (`k` is later used where a KeySet is expected)
+			return f
+		}(),
 		// (returns an error only when the KEYS could not be obtained, which this model - a storage that answers - does not have:
-		// the key-set recorder is the identity on the verifier and never holds an error)
+		// the key-set recorder never holds an error)
 		func() FuncSpec {
 			f := reader("pkg/op/token_revocation.go", "getTokenIDAndSubjectForRevocation", "(String × String × Bool)")
 			f.Ret = RetValErr
 			f.Rename["new(revocationKeySet)"] = "(default : ResRevocationKeys)"
-			f.Rename["keys.verifier()"] = "(keys).verifier"
+			f.Rename["keys.verifier()"] = "revocationKeySetVerifier now keys"
 			return f
 		}(),
 		reader("pkg/op/token_exchange.go", "getTokenIDAndClaims", "(String × String × ResATClaims × Bool)"),
@@ -110,6 +119,21 @@ func init() {
 			Rename: map[string]string{"s.provider.Storage().GetRefreshTokenInfo()": "(w).GetRefreshTokenInfo",
 				"s.provider.Storage().RevokeToken()": "(w).RevokeToken"}}),
 	}
+	// token exchange: how the storage policy (TokenExchangeStorage.ValidateTokenExchangeRequest) reads the verified subject / actor token
+	// of a request - the getters of op.tokenExchangeRequest over the request record of Model/ExchangeTE.lean (fields named as in Go)
+	var getters []FuncSpec
+	for _, g := range []string{"GetExchangeSubject", "GetExchangeSubjectTokenType", "GetExchangeSubjectTokenIDOrToken",
+		"GetExchangeActor", "GetExchangeActorTokenType", "GetExchangeActorTokenIDOrToken"} {
+		getters = append(getters, FuncSpec{File: "pkg/op/token_exchange.go", Name: "tokenExchangeRequest." + g, Lean: g,
+			Params: []string{"(r : TEReq)"}, Ret: RetVal, RetType: "String"})
+	}
+	extraGroups = append(extraGroups, Group{
+		Out:     "ResourceTE.lean",
+		NS:      "GenRes",
+		Imports: []string{"OidcModel.Model.ExchangeTE"},
+		Opens:   []string{"Go", "Hand", "Const"},
+		Funcs:   getters,
+	})
 	extraGroups = append(extraGroups, Group{
 		Out:     "Resource.lean",
 		NS:      "GenRes",
